@@ -53,6 +53,11 @@ def construct_expression_tree(
     # This means that we have a list as a leaf --> a function that we need to create.
     elif all([isinstance(item, str) for item in expression_ast]):
         if expression_ast[0] in LEGAL_NUMERIC_OPERATORS:
+            if len(expression_ast) != 3:
+                raise SyntaxError(
+                    f"Numerical operators take exactly two operands, got: {expression_ast}"
+                )
+
             # Probably someone trying to perform numerical operation on constants.
             first_operand = float(expression_ast[1])
             second_operand = float(expression_ast[2])
@@ -81,6 +86,11 @@ def construct_expression_tree(
             },
         )
         return AnyNode(id=str(new_function), value=new_function)
+
+    if len(expression_ast) != 3:
+        raise SyntaxError(
+            f"Numerical expressions take exactly two operands, got: {expression_ast}"
+        )
 
     node = AnyNode(
         id=expression_ast[0],
